@@ -7,4 +7,4 @@ CONSTANTS
   MaxAdds = 12
   MaxBad = 4
   MaxDup = 3
-INVARIANTS Emit NotDone NeverFinaliseWrongRoots OnlyGoodCached SameFinalState
+INVARIANTS Emit NeverFinaliseWrongRoots OnlyGoodCached SameFinalState
